@@ -149,6 +149,21 @@ def run(rep, drv):
 				c = float(s_s_cost_discrete(s, S, h, b, K, False, demand_hi=hi, demand_pmf=pm))
 			if abs(a - c) > 1e-8 * max(1, abs(a)):
 				rep.diff('poisson-vs-pmf', 'Poisson entry point %r, custom-pmf entry point on the Poisson pmf %r' % (a, c), case, py=[a, c], oracle=True, theorem=THEOREM)
+			# with use_poisson=True the custom-pmf arguments are documented to be ignored (and demand_mean with use_poisson=False)
+			with warnings.catch_warnings():
+				warnings.simplefilter('ignore')
+				a2 = float(s_s_cost_discrete(s, S, h, b, K, True, lam, 3, [0.1, 0.0, 0.5, 0.4]))
+				c2 = float(s_s_cost_discrete(s, S, h, b, K, False, 99.0, hi, pm))
+			if a2 != a or c2 != c:
+				rep.diff('poisson-vs-pmf', 'arguments documented as ignored change the result: Poisson %r -> %r with a stray pmf, custom pmf %r -> %r with a stray mean' % (a, a2, c, c2),
+						 case, py=[a, a2, c, c2], oracle=True, theorem=THEOREM)
+			if k % 5 == 0:
+				with warnings.catch_warnings():
+					warnings.simplefilter('ignore')
+					e1 = s_s_discrete_exact(h, b, K, True, lam)
+					e2 = s_s_discrete_exact(h, b, K, True, lam, 20, [1 / 21] * 21)
+				if tuple(map(float, e1)) != tuple(map(float, e2)):
+					rep.diff('poisson-vs-pmf', 's_s_discrete_exact(use_poisson=True): %r, with a stray pmf %r' % (e1, e2), case, py=[str(e1), str(e2)], oracle=True, theorem=THEOREM)
 		except Exception as e:
 			rep.diff('poisson-vs-pmf', 'raised %s' % err_enum(e), case, oracle=True, theorem=THEOREM)
 
